@@ -421,6 +421,7 @@ def synth_wsdl(r, n_ops, headers=True, parts_attr=None, styles=None):
              f'<xs:schema targetNamespace="{tns}" elementFormDefault="qualified">\n')
     x.append('<xs:simpleType name="Code"><xs:annotation><xs:documentation>A code\nin two lines</xs:documentation></xs:annotation>'
              '<xs:restriction base="xs:string"><xs:maxLength value="8"/><xs:enumeration value="A"/><xs:enumeration value="B"/>'
+             '<xs:enumeration value="C"/><xs:enumeration value="A"/><xs:enumeration value="D"/><xs:enumeration value="E"/><xs:enumeration value="F"/>'
              '</xs:restriction></xs:simpleType>\n')
     x.append('<xs:complexType name="Auth"><xs:annotation><xs:documentation>Credentials</xs:documentation></xs:annotation>'
              '<xs:sequence><xs:element name="User" type="xs:string"/><xs:element name="Token" type="xs:string" minOccurs="0"/>'
@@ -718,6 +719,14 @@ def c15(tier):
     }
     for k, t in tiny.items():
         inputs.append((k, {"t.xsd": t}, "t.xsd"))
+    # non-ASCII text everywhere it can be carried into the output (names, enumeration values, documentation, namespace URIs): a
+    # writer that accepts one byte at a time splits every multi-byte character
+    from . import gen_c14, render
+    for nm in ("Größe", "漢字", "naïve-Name", "Ünï_cödé"):
+        for pos in ("local-element", "attribute", "complex-type", "simple-type", "operation"):
+            ss = gen_c14.base_program(names={pos: gen_c14.Name((nm.lower(),), "snake", nm)},
+                                      texts={"doc-simple": "Prüfziffer — 検査", "doc-complex": "größer als\nkleiner als", "enumeration": "äöü"})
+            inputs.append((f"non-ascii:{pos}", render.render_set(ss), ss.start))
     jobs = []
     for i, (label, files, start) in enumerate(inputs):
         jobs.append({"id": i, "op": "sinkscan", "files": files, "start": start, "cpu_budget_s": 600,
